@@ -171,7 +171,7 @@ def c10_jobs(tier):
 
 
 def c11_jobs(tier):
-    jobs = [sim("c11-walk", "c11", require_counters=["cross_view_checks", "recreations_with_cross_view", "create_delete_races", "abandoned_control_requests"])]
+    jobs = [sim("c11-walk", "c11", require_counters=["cross_view_checks", "recreations_with_cross_view", "create_delete_races", "abandoned_control_requests", "stale_topic_handle_deletes", "delete_inside_publish_burst"])]
     if tier == "thorough":
         jobs.append(sim("c11-walk-h2", "c11", transport="h2"))
     return jobs
